@@ -120,6 +120,14 @@ type MTable struct {
 	Rows map[string]MRow
 }
 
+func (t *MTable) NumCells() int {
+	n := 0
+	for _, r := range t.Rows {
+		n += r.NumCells()
+	}
+	return n
+}
+
 func (t *MTable) Keys() []string {
 	ks := make([]string, 0, len(t.Rows))
 	for k := range t.Rows {
